@@ -362,6 +362,9 @@ var c11Sets = map[string][]string{
 	"plain-http":     {"http://app.example/cb"},
 	"with-query":     {"https://app.example/cb?foo=bar&a=b"},
 	"loopback+https": {"https://app.example/cb", "http://127.0.0.1/cb"},
+	"http-localhost-lookalike":     {"http://localhost.files-cdn.example/cb"},
+	"http-sub-localhost-lookalike": {"http://app.localhost.x.example:8080/cb"},
+	"http-dot-localhost":           {"http://app.localhost/cb"},
 }
 
 type c11Case struct {
